@@ -2016,9 +2016,13 @@ impl<'a, 'b, W: Write> SerializeTupleVariant for TupleVariantSer<'a, 'b, W> {
         self.ser.write_indent(self.depth)?;
         self.ser.out.write_str("- ")?;
         self.ser.at_line_start = false;
+        // As for ordinary sequence items: a block scalar that follows must be indented
+        // relative to this dash, not to the enclosing node.
+        self.ser.after_dash_depth = Some(self.depth);
         value.serialize(&mut *self.ser)
     }
     fn end(self) -> Result<()> {
+        self.ser.after_dash_depth = None;
         Ok(())
     }
 }
